@@ -32,6 +32,9 @@ type Case struct {
 	// DropCol: a kept table that loses a foreign key also loses the referencing column in the same
 	// modification (MySQL refuses DROP COLUMN while the constraint lives; PostgreSQL drops it along).
 	DropCol bool `json:"dropcol,omitempty"`
+	// Repoint = (child, old parent, new parent): a kept table's foreign key fkre_<child> on column rr keeps
+	// its name and column but references another table in the desired state (ModifyForeignKey).
+	Repoint *[3]int `json:"repoint,omitempty"`
 }
 
 type dialect struct {
@@ -43,6 +46,20 @@ type dialect struct {
 var dialects = map[string]dialect{
 	"mysql":    {"mysql", mysql.DefaultDiff, mysql.DefaultPlan},
 	"postgres": {"postgres", postgres.DefaultDiff, postgres.DefaultPlan},
+}
+
+// withRepoint adds column rr and the foreign key fkre_<child> -> parent to a built schema.
+func withRepoint(s *schema.Schema, child, parent int) *schema.Schema {
+	ct, ok1 := s.Table(fmt.Sprintf("t%d", child))
+	pt, ok2 := s.Table(fmt.Sprintf("t%d", parent))
+	if !ok1 || !ok2 {
+		return s
+	}
+	c := schema.NewNullIntColumn("rr", "bigint")
+	ct.AddColumns(c)
+	rc, _ := pt.Column("id")
+	ct.AddForeignKeys(schema.NewForeignKey(fmt.Sprintf("fkre_%d", child)).AddColumns(c).SetRefTable(pt).AddRefColumns(rc))
+	return s
 }
 
 func build(n int, present []bool, edges [][2]int, without ...map[[2]int]bool) *schema.Schema {
@@ -184,6 +201,13 @@ func replaySource(c *cat, changes []*migrate.Change, created, dropped map[string
 					if e := c.dropFK(src.T.Name, ch.F.Symbol); e != "" {
 						return e
 					}
+				case *schema.ModifyForeignKey:
+					if e := c.dropFK(src.T.Name, ch.From.Symbol); e != "" {
+						return e
+					}
+					if e := c.addFK(src.T.Name, ch.To.Symbol, ch.To.RefTable.Name); e != "" {
+						return e
+					}
 				}
 			}
 			// one ALTER TABLE: constraint drops take effect before column drops
@@ -205,7 +229,7 @@ var (
 	reCreate  = regexp.MustCompile(`^CREATE TABLE ` + qual + q + `(t\d+)` + q)
 	reDropT   = regexp.MustCompile(`^DROP TABLE ` + qual + q + `(t\d+)` + q)
 	reAlter   = regexp.MustCompile(`^ALTER TABLE ` + qual + q + `(t\d+)` + q)
-	reClause  = regexp.MustCompile(`(?:CONSTRAINT ` + q + `(fk_\d+_\d+)` + q + ` FOREIGN KEY \([^)]*\) REFERENCES ` + qual + q + `(t\d+)` + q + `)|(?:DROP (?:FOREIGN KEY|CONSTRAINT) ` + q + `(fk_\d+_\d+)` + q + `)`)
+	reClause  = regexp.MustCompile(`(?:CONSTRAINT ` + q + `(fk(?:re)?_\d+(?:_\d+)?)` + q + ` FOREIGN KEY \([^)]*\) REFERENCES ` + qual + q + `(t\d+)` + q + `)|(?:DROP (?:FOREIGN KEY|CONSTRAINT) ` + q + `(fk(?:re)?_\d+(?:_\d+)?)` + q + `)`)
 	reDropCol = regexp.MustCompile(`DROP COLUMN ` + q + `(r\d+)` + q)
 	reAnyStmt = regexp.MustCompile(`^(CREATE TABLE|DROP TABLE|ALTER TABLE)`)
 )
@@ -240,13 +264,19 @@ func replayText(c *cat, changes []*migrate.Change, created, dropped map[string]i
 			if !c.tables[t] {
 				return "modify-missing-table: text alters missing table " + t
 			}
-			for _, m := range reClause.FindAllStringSubmatch(cmd, -1) {
+			ms := reClause.FindAllStringSubmatch(cmd, -1)
+			for _, m := range ms {
+				if m[1] == "" {
+					if e := c.dropFK(t, m[3]); e != "" {
+						return e
+					}
+				}
+			}
+			for _, m := range ms {
 				if m[1] != "" {
 					if e := c.addFK(t, m[1], m[2]); e != "" {
 						return e
 					}
-				} else if e := c.dropFK(t, m[3]); e != "" {
-					return e
 				}
 			}
 			for _, m := range reDropCol.FindAllStringSubmatch(cmd, -1) {
@@ -341,13 +371,29 @@ func one(cs Case) (why string, cmds []string, nchanges int) {
 	if cs.DropCol {
 		without = dropCols(cs, curE, desE)
 	}
-	cur, des := build(cs.N, curP, curE), build(cs.N, desP, desE, without)
+	mk := func(isDes bool) *schema.Schema {
+		var s *schema.Schema
+		if isDes {
+			s = build(cs.N, desP, desE, without)
+		} else {
+			s = build(cs.N, curP, curE)
+		}
+		if cs.Repoint != nil {
+			if isDes {
+				withRepoint(s, cs.Repoint[0], cs.Repoint[2])
+			} else {
+				withRepoint(s, cs.Repoint[0], cs.Repoint[1])
+			}
+		}
+		return s
+	}
+	cur, des := mk(false), mk(true)
 	changes, err := d.diff.SchemaDiff(cur, des, schema.DiffNormalized())
 	if err != nil {
 		return "diff-error: " + err.Error(), nil, 0
 	}
 	if len(changes) == 0 {
-		if !same(catOf(build(cs.N, curP, curE)), catOf(build(cs.N, desP, desE))) {
+		if !same(catOf(mk(false)), catOf(mk(true))) {
 			return "empty-diff: differ reports nothing although the catalogues differ", nil, 0
 		}
 		return "", nil, 0
@@ -379,7 +425,7 @@ func one(cs Case) (why string, cmds []string, nchanges int) {
 	}
 	plan = plan2
 	for leg, rp := range []func(*cat, []*migrate.Change, map[string]int, map[string]int) string{replaySource, replayText} {
-		c := catOf(build(cs.N, curP, curE))
+		c := catOf(mk(false))
 		c.dialect = cs.Dialect
 		created, dropped := map[string]int{}, map[string]int{}
 		legName := []string{"source", "text"}[leg]
@@ -450,6 +496,20 @@ func run(c *rt.Ctx) {
 					dc.DropCol = true
 					cases = append(cases, dc)
 				}
+				if mode == 0 || n > 3 {
+					// re-pointed key: kept child, old parent exists now, new parent exists afterwards
+					for i := 0; i < n; i++ {
+						for j := 0; j < n; j++ {
+							for k := 0; k < n; k++ {
+								if cs.Role[i] == 2 && cs.Role[j] != 0 && cs.Role[k] != 1 && j != k && (n <= 3 || (i+j+k)%n == 0) {
+									rc := cs
+									rc.Repoint = &[3]int{i, j, k}
+									cases = append(cases, rc)
+								}
+							}
+						}
+					}
+				}
 			}
 		}
 	}
@@ -502,6 +562,9 @@ func run(c *rt.Ctx) {
 		c.Eval(rt.Digest(cs.Dialect, cs.Mode, cmds), len(cmds) > 1)
 		if cs.DropCol {
 			c.Count("fk-dropped-with-its-column", 1)
+		}
+		if cs.Repoint != nil {
+			c.Count("fk-repointed(ModifyForeignKey)", 1)
 		}
 		if hasCycle(cs) {
 			c.Count("cyclic-graphs", 1)
